@@ -22,7 +22,9 @@ def config(tier):
     return {
         "hashseeds": [0, 1] if q else [0, 1, 2, 3, 4, 5, 6, 7],
         "families": ["G2"],
-        "mc": [{"module": "MCSens", "cfg": "MCSens", "workers": 2, "timeout": 600}],
+        "mc": [{"module": "MCSens", "cfg": "MCSens", "workers": 2, "timeout": 600}]
+              # as-built sensitivity_transform program on every model result (heavy: thorough tier only, 714 circuits x 1..6 orders)
+              + ([] if q else [{"module": "MCLoops", "cfg": "MCSensTx", "workers": 12, "timeout": 5400, "env": {"MC_FULL": "1"}}]),
         "shards": 8 if q else 16,
         "negctl": 12,
     }
